@@ -1,6 +1,106 @@
-(* C27 - placeholder while the development is being built *)
-From Coq Require Import List.
-From SAV.engine Require Import Disconnect.
-Theorem c27_placeholder : forall w, invalidated (init w) = false.
-Proof. intros w. reflexivity. Qed.
-Print Assumptions c27_placeholder.
+(* C27 - a disconnect invalidates the connection and blocks silent continuation.
+   Statements only; every proof is [exact <lemma>].
+
+   [step faults lst o s] runs one Connection operation (execute, begin, commit, rollback, begin_nested,
+   rollback / release of the current savepoint) in state [s]; every DBAPI call asks the fault oracle
+   [faults : nat -> fault] (indexed by the number of the call) whether it succeeds, raises an error, or raises
+   an error of the disconnect class; [lst] is the handle_error listener.  All theorems hold for EVERY oracle,
+   i.e. for every position of every fault in every history, and for every listener unless stated.  The result
+   code RDisc is "DBAPIError with connection_invalidated=True" (classified as a disconnect after the listeners
+   ran), RErr a DBAPIError not so classified, RPending PendingRollbackError, RInvalidReq InvalidRequestError. *)
+From Coq Require Import List Arith Bool.
+Import ListNotations.
+From SAV.engine Require Import Disconnect DisconnectProofs DisconnectSteps DisconnectInv.
+
+(* invalidated_after_disconnect *)
+Theorem c27_invalidated_after_disconnect : forall faults lst o s s',
+  step faults lst o s = (s', RDisc) -> invalidated s' = true.
+Proof. exact invalidated_after_disconnect. Qed.
+Print Assumptions c27_invalidated_after_disconnect.
+
+(* older_pooled_connections_not_reused: after a disconnect hit the live connection (listener did not switch
+   invalidate_pool_on_disconnect off), in every continuation every execute / commit / rollback runs on a DBAPI
+   connection opened after the failure (ids are handed out in opening order) *)
+Theorem c27_older_pooled_connections_not_reused : forall faults lst o s s1,
+  WF s -> s_cur s <> None -> lst <> 3 -> step faults lst o s = (s1, RDisc) ->
+  forall h, exists new,
+    s_log (final faults lst h s1) = new ++ s_log s1 /\
+    Forall (fun kc => use_kind (fst kc) -> s_nconn s1 <= snd kc) new.
+Proof. exact older_pooled_connections_not_reused. Qed.
+Print Assumptions c27_older_pooled_connections_not_reused.
+
+(* ... where WF (timestamps/ids consistent with the logical clock) holds initially and is preserved *)
+Theorem c27_wf_reachable : forall faults lst w h, WF (final faults lst h (init w)).
+Proof. intros faults lst w h. exact (wf_final faults lst h (init w) (wf_init w)). Qed.
+Print Assumptions c27_wf_reachable.
+
+(* blocked_until_rollback: a disconnect that leaves a transaction in progress blocks the connection ... *)
+Theorem c27_disconnect_in_transaction_blocks : forall faults lst o s s',
+  step faults lst o s = (s', RDisc) -> in_txn s' = true -> blocked s'.
+Proof. exact disconnect_in_transaction_blocks. Qed.
+Print Assumptions c27_disconnect_in_transaction_blocks.
+
+(* ... the transaction that was in progress at the failure is still in progress after it ... *)
+Theorem c27_transaction_survives_failure : forall faults lst o s s' c,
+  in_txn s = true -> o <> ORollback -> step faults lst o s = (s', c) -> c <> ROk -> in_txn s' = true.
+Proof. exact transaction_survives_failure. Qed.
+Print Assumptions c27_transaction_survives_failure.
+
+(* ... and from a blocked state, after any operations other than rollback(), every further operation other than
+   rollback() reaches NO DBAPI call (log and call counter unchanged), stays blocked, and execute / begin /
+   commit / begin_nested raise (PendingRollbackError; begin: InvalidRequestError), releasing an existing
+   savepoint raises PendingRollbackError (a savepoint rollback is a silent no-op) *)
+Theorem c27_blocked_until_rollback : forall faults lst s h1 o s2 c,
+  blocked s -> ~ In ORollback h1 -> o <> ORollback ->
+  step faults lst o (final faults lst h1 s) = (s2, c) ->
+  s_log s2 = s_log s /\ s_n s2 = s_n s /\ blocked s2 /\
+  (raising_op o -> c = RPending \/ c = RInvalidReq) /\
+  (o = OReleaseSp -> s_nested (final faults lst h1 s) <> [] -> c = RPending).
+Proof. exact blocked_until_rollback. Qed.
+Print Assumptions c27_blocked_until_rollback.
+
+(* reconnects_after_rollback: rollback() on the blocked connection succeeds without a DBAPI call, and the next
+   execute - the database being back (the next two calls succeed) - transparently reconnects and succeeds *)
+Theorem c27_rollback_unblocks : forall faults lst s, blocked s ->
+  step faults lst ORollback s = (set_txn s TNone [], ROk).
+Proof. exact rollback_unblocks. Qed.
+Print Assumptions c27_rollback_unblocks.
+
+Theorem c27_reconnects_after_rollback : forall faults lst s, blocked s ->
+  faults (S (s_n s)) = FOk -> faults (S (S (s_n s))) = FOk ->
+  exists s', step faults lst OExec (fst (step faults lst ORollback s)) = (s', ROk) /\ invalidated s' = false /\
+             s_log (fst (step faults lst ORollback s)) = s_log s.
+Proof. exact reconnects_after_rollback. Qed.
+Print Assumptions c27_reconnects_after_rollback.
+
+(* an invalidated connection WITHOUT a transaction in progress reconnects on the next execute *)
+Theorem c27_reconnects_when_no_transaction : forall faults lst s,
+  s_cur s = None -> s_txn s = TNone -> head_inactive (s_nested s) = false ->
+  faults (S (s_n s)) = FOk -> faults (S (S (s_n s))) = FOk ->
+  exists s', step faults lst OExec s = (s', ROk) /\ invalidated s' = false /\ in_txn s' = true.
+Proof. exact reconnects_when_unblocked. Qed.
+Print Assumptions c27_reconnects_when_no_transaction.
+
+(* non_disconnect_leaves_pool_untouched: any outcome other than a disconnect-classified error on a live
+   connection leaves the pool (idle records, invalidation time), the connection in use, the number of opened
+   connections and the clock exactly as they were *)
+Theorem c27_non_disconnect_leaves_pool_untouched : forall faults lst o s s' c,
+  s_cur s <> None -> step faults lst o s = (s', c) -> c <> RDisc -> same_pool s s'.
+Proof. exact non_disconnect_leaves_pool_untouched. Qed.
+Print Assumptions c27_non_disconnect_leaves_pool_untouched.
+
+(* non-vacuity *)
+Definition ex_faults (n : nat) : fault := if Nat.eqb n 2 then FDisc else FOk.
+Example c27_ex_blocked :
+  let r := run ex_faults 0 [OExec; OExec; OExec; OCommit; ORollback; OExec] (init 1) in
+  map fst r = [ROk; RDisc; RPending; RPending; ROk; ROk] /\
+  map (fun cs => invalidated (snd cs)) r = [false; true; true; true; true; false] /\
+  rev (s_log (final ex_faults 0 [OExec; OExec; OExec; OCommit; ORollback; OExec] (init 1))) =
+    [(K_EXEC, 0); (K_EXEC, 0); (K_CLOSE, 0); (K_CLOSE, 1); (K_CONNECT, 2); (K_EXEC, 2)].
+Proof. vm_compute. auto. Qed.
+(* the guard lst <> 3 of c27_older_pooled_connections_not_reused is needed: a listener that switches
+   invalidate_pool_on_disconnect off gets the older pooled connection 1 back *)
+Example c27_ex_listener_keeps_pool :
+  rev (s_log (final ex_faults 3 [OExec; OExec; ORollback; OExec] (init 1))) =
+    [(K_EXEC, 0); (K_EXEC, 0); (K_CLOSE, 0); (K_EXEC, 1)].
+Proof. vm_compute. reflexivity. Qed.
